@@ -13,7 +13,7 @@ def gen_fleet(chk, n):
         ac = gen.gen_aircraft(rng, chk.hist, max_wings=2, N=rng.randint(3, 4), sides=("both", "both", "right"))
         st = gen.gen_state(rng, chk.hist, ang=5.0, pose=True, rate_frames=("body",))
         st["position"] = [rng.uniform(-15, 15), k * rng.uniform(9, 16) - 10, rng.uniform(-8, 8) - 500.0]
-        acs.append(("ac%d" % k, ac, st, gen.gen_controls(rng, ac)))
+        acs.append((("uav", "uav_2", "uav_21")[k], ac, st, gen.gen_controls(rng, ac)))      # names contained in one another on purpose
     return acs
 
 
@@ -110,10 +110,14 @@ def run(chk):
                 far = []
                 for k, (nm, ac, st, cs) in enumerate(acs):
                     st2 = copy.deepcopy(st)
-                    st2["position"] = [k * 1.0e5 * rng.choice([1, 3]), -k * 2.0e5, -500.0 - k * 1.0e4 * 0]
+                    # far apart horizontally, and at altitudes in different layers of the standard atmosphere
+                    st2["position"] = [k * 1.0e5 * rng.choice([1, 3]), -k * 2.0e5, -500.0 - k * (9000.0 if sd["units"] == "SI" else 30000.0)]
                     far.append((nm, ac, st2, cs))
                 sdc = copy.deepcopy(sd)
-                sdc["scene"]["atmosphere"]["rho"] = 0.0023769 if sd["units"] == "English" else 1.225
+                if it % 2 == 0:
+                    sdc["scene"]["atmosphere"]["rho"] = "standard"           # every aircraft must see the air of its own altitude
+                else:
+                    sdc["scene"]["atmosphere"]["rho"] = 0.0023769 if sd["units"] == "English" else 1.225
                 together = api.solve(gen.build_scene(MX, sdc, far))
                 for a in far:
                     alone = api.solve(gen.build_scene(MX, sdc, [a]))
